@@ -711,7 +711,8 @@ class FanBeamGeometry(DivergentBeamGeometry):
                                det_axis_init=self._det_axis_init_arg,
                                src_shift_func=self.src_shift_func,
                                det_shift_func=self.det_shift_func,
-                               translation=self.translation)
+                               translation=self.translation,
+                               check_bounds=self.check_bounds)
 
 
 class ConeBeamGeometry(DivergentBeamGeometry, AxisOrientedGeometry):
@@ -1561,7 +1562,8 @@ class ConeBeamGeometry(DivergentBeamGeometry, AxisOrientedGeometry):
                                 det_axes_init=self._det_axes_init_arg,
                                 src_shift_func=self.src_shift_func,
                                 det_shift_func=self.det_shift_func,
-                                translation=self.translation)
+                                translation=self.translation,
+                                check_bounds=self.check_bounds)
 
     # Manually override the abstract method in `Geometry` since it's found
     # first
